@@ -6,7 +6,7 @@ use base64::{engine::Engine as _, prelude::BASE64_STANDARD};
 use sta_rs::Message;
 use star_test_utils::AggregationServer;
 
-pub const EPOCHS: &[&str] = &["", "e", "epoch-1", "épocas", "日本", "a\"b", "back\\slash", "two words", "q\"\\\"", "2026-09", "ünï\u{1F600}"];
+pub const EPOCHS: &[&str] = &["", "e", "epoch-1", "épocas", "日本", "a\"b", "back\\slash", "two words", "q\"\\\"", "2026-09", "ünï\u{1F600}", "epoch-7\n", " 2024-09-28", "t ", "\t", "\u{feff}e"];
 
 pub fn gen_epoch(g: &mut Sm) -> String {
   if g.chance(3, 4) {
